@@ -403,7 +403,7 @@ theorem cellWF_date (cd : Codec) (f : C09.Field) (k : Nat) (t : C08.DT) (hdt : f
     rw [if_neg (by omega), if_neg h1, if_neg h2]
     simp only [h3, hk, Option.getD_some]
   have hcast := C08.cast_format_date t hv
-  simp only [C08.format] at hcast
+  simp only [C08.format, if_true] at hcast
   have hne' : C08.formatDate t ≠ [] := by
     intro h
     rw [h] at hcast
@@ -418,7 +418,7 @@ theorem cellWF_date (cd : Codec) (f : C09.Field) (k : Nat) (t : C08.DT) (hdt : f
     rw [hcast]
   refine ⟨hshown, .date t, hshown, ?_⟩
   unfold reread C09.fmtField
-  simp only [C08.format]
+  simp only [C08.format, hdt, if_true]
   rw [normEmpty_some_ne _ hne']
   unfold rawOfRead codeCell
   simp [hne, hdt, hidx]
